@@ -161,8 +161,8 @@ def action_config_reads(ctx: Ctx):
             texts = ctx.expand.expand(base, fi)
             if not any(t.endswith("." + cfg_field) for t in texts):
                 continue
-            # the receiver must be a LocationAction
-            if not any(x[0] == "inst" and x[1] == LA for x in ctx.types.type_of(base.value if isinstance(base, ast.Attribute) else base, fi)) \
+            # the receiver must be a LocationAction (the class-mangled field name already says so)
+            if not cfg_field.startswith("_" + la.name) and not any(x[0] == "inst" and x[1] == LA for x in ctx.types.type_of(base.value if isinstance(base, ast.Attribute) else base, fi)) \
                     and not (fi.cls is la):
                 continue
             lk = literal_key(ctx, fi, key)
@@ -325,3 +325,19 @@ def dataclass_rule(ctx: Ctx, res: Result, rid: str, class_qnames):
                 else:
                     res.fail(Finding(rid, init.qname, ctx.prog.parent_of(v) if False else v, init.loc(v), "%s.%s is stored from the constructor parameter `%s`" % (c.name, attr, v.id)))
     res.analysed["data-carrier getters / constructor stores checked"] = "%d / %d" % (n_get, n_store)
+
+
+def identity_cache_field(ctx: Ctx) -> str:
+    """Mangled name of the mapping field of VariableCacheProvider (identity -> id): the field its constructor sets to a
+    fresh dict; found by role, not by name."""
+    c = ctx.prog.cls("deep.processor.variable_set_processor.VariableCacheProvider")
+    init = c.lookup("__init__")
+    out = []
+    for (cq, attr), lst in sorted(ctx.types._attr_store_index().items()):
+        if cq != c.qname:
+            continue
+        for sf, v, _ in lst:
+            if sf is init and (isinstance(v, ast.Dict) and not v.keys or (isinstance(v, ast.Call) and norm(v.func) in ("dict", "OrderedDict") and not v.args)):
+                out.append(attr)
+    need(len(set(out)) == 1, "VariableCacheProvider: expected one mapping field created in the constructor, found %s" % sorted(set(out)))
+    return out[0]
